@@ -14,8 +14,10 @@ import (
 	"encoding/json"
 	"fmt"
 	"math/rand"
+	"runtime"
 	"sort"
 	"strconv"
+	"sync/atomic"
 	"testing"
 	"time"
 
@@ -1515,6 +1517,58 @@ func vtC08SchedRun(in []int64) (obs []int64, dropped bool) {
 			}
 			x.n.DeleteNodeMetric(x.name, c)
 			*x = vtC08Thread{ok: x.ok}
+		case 7:
+			// t's DeletePod and t1's AddOrUpdatePod queue for the same nodeInfo lock, both
+			// having passed the unlocked deleted pre-check: the delete gets the lock first
+			uid, t1, now := r.next(), r.next(), r.next()
+			e.clk.SetTime(e.base.Add(time.Duration(now) * time.Second))
+			pod := vtC08ReadPod(r, ext, e.base)
+			info := infoOf(pod)
+			y := th(t1)
+			podUID := types.UID(fmt.Sprintf("u%02d", uid))
+			_, xHeld := locked[x.n]
+			race := x.has && y.has && t != t1 && x.n == y.n && !y.created && !xHeld && info != nil && !x.n.deleted
+			if race {
+				n := x.n
+				n.RLock() // a reader holds the lock while the two writers queue up
+				doneA := make(chan struct{})
+				go func() { n.DeletePod(x.name, podUID, c); close(doneA) }()
+				for spin := 0; spin < 200000; spin++ { // until the deleter is the pending writer
+					if !n.TryRLock() {
+						break
+					}
+					n.RUnlock()
+					runtime.Gosched()
+				}
+				var started atomic.Bool
+				resB := make(chan bool, 1)
+				go func() { started.Store(true); resB <- n.AddOrUpdatePod(info, false) }()
+				for !started.Load() {
+					runtime.Gosched()
+				}
+				time.Sleep(3 * time.Millisecond) // let it pass the pre-check and queue behind the deleter
+				n.RUnlock()
+				<-doneA
+				ok := <-resB
+				*x = vtC08Thread{ok: x.ok}
+				dropped = dropped || (!ok && y.again)
+				*y = vtC08Thread{ok: ok}
+				break
+			}
+			// otherwise one after the other
+			if x.has && !xHeld {
+				x.n.DeletePod(x.name, podUID, c)
+				*x = vtC08Thread{ok: x.ok}
+			}
+			if info == nil || !y.has || !canWrite(t1, y) {
+				break
+			}
+			ok := y.n.AddOrUpdatePod(info, y.created)
+			if y.created {
+				delete(locked, y.n)
+			}
+			dropped = dropped || (!ok && y.again)
+			*y = vtC08Thread{ok: ok}
 		default:
 			node := vtC08Node(r.take(17))
 			pod := vtC08ReadPod(r, ext, e.base)
@@ -1722,6 +1776,17 @@ func vtC08SchedGen1(r *rand.Rand) (string, []int64) {
 			acts = append(acts, []action{{5, t, 1 + r.Int63n(nuid)}, {6, t}, {2, t, 1 + r.Int63n(nnode)}, {1, t, 1 + r.Int63n(nnode), int64(r.Intn(2))}}[r.Intn(4)])
 		}
 		style += "-soup"
+	}
+	// sometimes first: the last pod of a node is removed while an assignment to the same node has
+	// already loaded the nodeInfo and passed the unlocked deleted pre-check (both queue for the lock)
+	if r.Intn(3) == 0 {
+		node := 1 + r.Int63n(nnode)
+		ua, ub := int64(1), int64(2)
+		pa, pb := *getPod(ua), *getPod(ub)
+		pre := []action{{1, 1, node, 0}, action(pa.emit(nil, 3, 1, nowv)), {2, 2, node}, {1, 3, node, 0},
+			action(pb.emit(nil, 7, 2, ua, 3, nowv)), {1, 3, node, 1}, action(pb.emit(nil, 3, 3, nowv))}
+		acts = append(pre, acts...)
+		style += "-race"
 	}
 	in = append(cfgIn, int64(len(acts)))
 	for _, a := range acts {
